@@ -53,6 +53,7 @@ PROFILES = {
     "str1": prof("MC_Fn", "MovesStr", 1, srcs=[10], allow_undef=True),
     "cast1": prof("MC_Fn", "MovesCast", 1, srcs=[11], allow_undef=True),
     "gsub4": prof("MC_Focus", "MovesGS", 4, srcs=[1, 6]),
+    "regroup5": prof("MC_Focus", "MovesRegroup", 5, srcs=[1, 6]),
     "mixsim": prof("MC_Focus", "MovesMix", 7, srcs=[1, 6, 7], simulate=True, sim_depth=16, num=20000, invariants=[], properties=[], timeout=900),
     "subq4": prof("MC_Focus", "MovesSubq", 4, srcs=[1]),
     "subq5": prof("MC_Focus", "MovesSubq", 5, srcs=[1]),
@@ -126,8 +127,8 @@ CHECKS = {
     "C04": dict(
         level="model_checking",
         clauses=GEN_CLAUSES_SPEC,
-        phases=dict(quick=[dict(kind="argspace", verbs=["agg"], amax=2), dict(profile="agg3"), dict(profile="gsub4")],
-                    thorough=[dict(kind="argspace", verbs=["agg"], amax=3), dict(profile="agg3"), dict(profile="gsub4"), dict(profile="wins4")]),
+        phases=dict(quick=[dict(kind="argspace", verbs=["agg"], amax=2), dict(profile="agg3"), dict(profile="gsub4"), dict(profile="regroup5")],
+                    thorough=[dict(kind="argspace", verbs=["agg"], amax=3), dict(profile="agg3"), dict(profile="gsub4"), dict(profile="regroup5"), dict(profile="wins4")]),
     ),
     "C05": dict(
         level="model_checking",
